@@ -93,6 +93,38 @@ struct C16 : Box {
           REPORT(run, prop, "ext_parse_ext_order_wrong", "%s position %d", ctx, k - 1);
       }
     }
+    // frame-limited iteration (what the DRED decoder uses): exactly the entries of the full parse that belong to frames below the
+    // limit, in bitstream order; every limit 1..nf for small packets, three seeded limits otherwise
+    {
+      std::vector<int> lims;
+      if (nf <= 6) for (int fm = 1; fm <= nf; fm++) lims.push_back(fm);
+      else { uint64_t h = mix64((uint64_t)len * 131 + (uint64_t)nb, (uint64_t)nf); lims = {1 + (int)(h % (uint64_t)nf), 1 + (int)((h >> 20) % (uint64_t)nf), nf}; }
+      std::vector<opsim_ext> lim((size_t)nb + 2);
+      for (int fm : lims) {
+        int nl = opsim_ext_iterate(buf.p, len, nf, fm, lim.data(), (int)lim.size());
+        int want = 0; bool same = true;
+        for (int i = 0; i < nb; i++) if (v[(size_t)i].frame < fm) {
+          if (want < nl && want < (int)lim.size()) { const opsim_ext &x = lim[(size_t)want], &e = v[(size_t)i]; if (x.id != e.id || x.frame != e.frame || x.len != e.len || x.data != e.data) same = false; }
+          want++;
+        }
+        run.count("ext_frame_limited_iterations");
+        if (nl != want || !same) REPORT(run, prop, "ext_frame_limited_iterator_vs_parse_disagree", "%s frame_max %d of %d: iterator %d entries, parse has %d below the limit%s", ctx, fm, nf, nl, want, same ? "" : " (entries differ)");
+      }
+    }
+    // find: the first entry with that id in bitstream order, for every id that occurs (at most 6) and one that does not
+    {
+      std::vector<int> ids; bool present[128] = {false};
+      for (int i = 0; i < nb; i++) { int id = v[(size_t)i].id; if (id >= 0 && id < 128 && !present[id]) { present[id] = true; if (ids.size() < 6) ids.push_back(id); } }
+      for (int id = 3; id < 128; id++) if (!present[id]) { ids.push_back(id); break; }
+      for (int id : ids) {
+        opsim_ext fe; memset(&fe, 0, sizeof fe);
+        int fr = opsim_ext_find(buf.p, len, nf, id, &fe);
+        int first = -1; for (int i = 0; i < nb && first < 0; i++) if (v[(size_t)i].id == id) first = i;
+        run.count("ext_find_checked");
+        if (first < 0) { if (fr != 0) REPORT(run, prop, "ext_find_wrong", "%s id %d absent, find returned %d", ctx, id, fr); }
+        else { const opsim_ext &e = v[(size_t)first]; if (fr <= 0 || fe.id != e.id || fe.frame != e.frame || fe.len != e.len || fe.data != e.data) REPORT(run, prop, "ext_find_wrong", "%s id %d: find returned %d (frame %d len %d), first occurrence is entry %d (frame %d len %d)", ctx, id, fr, fe.frame, fe.len, first, e.frame, e.len); }
+      }
+    }
     ok = true;
     return out;
   }
